@@ -141,8 +141,8 @@ def build(repo):
                modifies=[], result=None,
                ensures=['lemma instance (model value of the zero step, through the contract of model_value):: '
                         'isnone(self.h) or model_value(result[1], result[2], zerov, XOPT_ABS(), self.h, (), None) == HU(RSV(XOPT_ABS()))',
-                        'the regularised step handed to the main loop never has a negative predicted reduction (h(x) - m(d) >= 0; the zero step is substituted otherwise):: '
-                        'isnone(self.h) or HU(RSV(XOPT_ABS())) - MVF(result[1], result[2], result[0], XOPT_ABS()) >= 0'])
+                        ('the regularised step handed to the main loop never has a negative predicted reduction (h(x) - m(d) >= 0; the zero step is substituted otherwise):: '
+                         'isnone(self.h) or HU(RSV(XOPT_ABS())) - MVF(result[1], result[2], result[0], XOPT_ABS()) >= 0', 'C13', 'C06')])
     D.contract('Controller.evaluate_criticality_measure', tags=['C08', 'C13'],
                requires=['parameters inside the range table (established by solve):: params("dykstra.max_iters") >= 1 and params("dykstra.d_tol") >= 0',
                          'A-params sub-range (func_tol.max_iters = 0 is accepted by the parameter check):: params("func_tol.max_iters") >= 1'],
